@@ -130,6 +130,10 @@ struct Emitter {
             j += ",\"arr\":" + std::to_string(AT->getSize().getZExtValue());
             QualType E = AT->getElementType();
             if (!E->isIncompleteType()) j += ",\"esz\":" + std::to_string(Ctx.getTypeSizeInChars(E).getQuantity());
+        } else if (const IncompleteArrayType *IAT = Ctx.getAsIncompleteArrayType(C)) {
+            j += ",\"arr\":-1";
+            QualType E = IAT->getElementType();
+            if (!E->isIncompleteType()) j += ",\"esz\":" + std::to_string(Ctx.getTypeSizeInChars(E).getQuantity());
         } else if (C->isFloatingType()) {
             j += ",\"flt\":" + std::to_string(Ctx.getTypeSize(C));
         }
